@@ -116,6 +116,8 @@ def info(f):
                 nm = d.name()
                 if nm in TERM_FUNCS:
                     r.terms[tid] = t
+                if nm in INDEX_FUNCS and t.sort() == INT:
+                    r.ints[tid] = t
             if t.sort() == BYTES and k in (z3.Z3_OP_UNINTERPRETED, z3.Z3_OP_SELECT, z3.Z3_OP_SEQ_CONCAT, z3.Z3_OP_SEQ_EXTRACT):
                 r.strs[tid] = t
         for c in ch:
@@ -445,6 +447,7 @@ def check(fs, timeout_ms, **opts):
 
 
 TERM_FUNCS = {"ext", "ord", "cat", "blen"}  # applications of these are collected for TERM_AXIOMS
+INDEX_FUNCS = {"DEEP"}  # integer-valued spec functions whose values are used as indices
 TERM_AXIOMS = []  # callables: iterable of ground subterms -> list of facts (theory lemmas on demand)
 
 
@@ -466,11 +469,14 @@ def _abstract_bytes_axioms(terms):
         if nm == "cat":
             a, b = t.arg(0), t.arg(1)
             out.append(BLEN(t) == BLEN(a) + BLEN(b))
+            # associativity, on demand: a ++ (b ++ c) = (a ++ b) ++ c
+            if z3.is_app(b) and b.decl().name() == "cat":
+                out.append(t == CAT(CAT(a, b.arg(0)), b.arg(1)))
             out.append(BLEN(a) >= 0)
             out.append(BLEN(b) >= 0)
-            for x, y in ((a, b), (b, a)):
-                if z3.is_const(x) and x.decl().name() == "lit_":
-                    out.append(t == y)
+            empty = z3.Const("lit_", a.sort())
+            out.append(z3.Implies(a == empty, t == b))
+            out.append(z3.Implies(b == empty, t == a))
         elif nm == "blen":
             out.append(t >= 0)
         elif nm.startswith("lit_"):
